@@ -39,8 +39,8 @@ class Index(object):
         self.frames = []
         for t, fm in enumerate(prog["framers"]):
             self.tid[fm["name"]] = t
-            for fr in fm["frames"]:
-                self.fid[(fm["name"], fr["name"])] = len(self.frames)
+            for j, fr in enumerate(fm["frames"]):
+                self.fid[(fm["name"], fr["name"])] = j      # frame ids are local to their framer
                 self.frames.append((fm, fr))
 
     def taskables(self, prog):
@@ -256,39 +256,39 @@ def coq_act(ix, prog, fm, a):
 
 def render_coq(prog, name="P"):
     ix = Index(prog)
-    frs = []
-    for fm, fr in ix.frames:
-        me = fm["name"]
-        pre, deact = [], []
-        for pa in fr.get("preacts", []):
-            if pa[0] == "act":
-                pre.append("(PAct %s)" % coq_act(ix, prog, fm, pa[1]))
-            elif pa[0] == "go":
-                pre.append("(PGo %s %s)" % (clist([coq_need(ix, fm, n) for n in pa[1]], "(need FOps)"),
-                                            cn(ix.fid[(me, pa[2])])))
-            elif pa[0] == "aux":
-                pre.append("(PAux %s %s)" % (clist([coq_need(ix, fm, n) for n in pa[1]], "(need FOps)"),
-                                             cn(ix.tid[pa[2]])))
-                deact.append("(ADeactivize %s)" % cn(ix.tid[pa[2]]))
-        exacts = [coq_act(ix, prog, fm, a) for a in fr.get("exacts", [])] + deact
-
-        def acts(key):
-            return clist([coq_act(ix, prog, fm, a) for a in fr.get(key, [])], "(act FOps)")
-        frs.append(
-            "(@Build_frame FOps %s %s %s %s %s %s %s %s %s %s %s)" % (
-                cn(ix.tid[me]),
-                "None" if not fr.get("over") else "(Some %s)" % cn(ix.fid[(me, fr["over"])]),
-                clist([cn(ix.fid[(me, u)]) for u in unders_of(fm, fr)], "nat"),
-                clist([coq_need(ix, fm, n) for n in fr.get("beacts", [])], "(need FOps)"),
-                acts("enacts"), acts("renacts"), clist(pre, "(pact FOps)"), acts("reacts"),
-                clist(exacts, "(act FOps)"), acts("rexacts"),
-                clist([cn(ix.tid[a]) for a in fr.get("auxes", [])], "nat")))
     fms = []
     for fm in prog["framers"]:
-        fms.append("(@Build_framer FOps %s %s %s true None)" % (
+        me = fm["name"]
+        frs = []
+        for fr in fm["frames"]:
+            pre, deact = [], []
+            for pa in fr.get("preacts", []):
+                if pa[0] == "act":
+                    pre.append("(PAct %s)" % coq_act(ix, prog, fm, pa[1]))
+                elif pa[0] == "go":
+                    pre.append("(PGo %s %s)" % (clist([coq_need(ix, fm, n) for n in pa[1]], "(need FOps)"),
+                                                cn(ix.fid[(me, pa[2])])))
+                elif pa[0] == "aux":
+                    pre.append("(PAux %s %s)" % (clist([coq_need(ix, fm, n) for n in pa[1]], "(need FOps)"),
+                                                 cn(ix.tid[pa[2]])))
+                    deact.append("(ADeactivize %s)" % cn(ix.tid[pa[2]]))
+            exacts = [coq_act(ix, prog, fm, a) for a in fr.get("exacts", [])] + deact
+
+            def acts(key):
+                return clist([coq_act(ix, prog, fm, a) for a in fr.get(key, [])], "(act FOps)")
+            frs.append(
+                "(@Build_frame FOps %s %s %s %s %s %s %s %s %s %s)" % (
+                    "None" if not fr.get("over") else "(Some %s)" % cn(ix.fid[(me, fr["over"])]),
+                    clist([cn(ix.fid[(me, u)]) for u in unders_of(fm, fr)], "nat"),
+                    clist([coq_need(ix, fm, n) for n in fr.get("beacts", [])], "(need FOps)"),
+                    acts("enacts"), acts("renacts"), clist(pre, "(pact FOps)"), acts("reacts"),
+                    clist(exacts, "(act FOps)"), acts("rexacts"),
+                    clist([cn(ix.tid[a]) for a in fr.get("auxes", [])], "nat")))
+        fms.append("(@Build_framer FOps %s %s %s %s true None)" % (
+            clist(frs, "(frame FOps)"),
             cn(ix.fid[(fm["name"], fm["first"])]), SCHED[fm["sched"]], cf(abs(fm.get("period", 0.0)))))
-    return ("(@Build_prog FOps %s %s %s %s %s)" % (
-        clist(frs, "(frame FOps)"), clist(fms, "(framer FOps)"),
+    return ("(@Build_prog FOps %s %s %s %s)" % (
+        clist(fms, "(framer FOps)"),
         clist([cn(t) for t in ix.taskables(prog)], "nat"), cf(prog["tick"]), cf(0.0)))
 
 
